@@ -84,7 +84,7 @@ def defs_z3(gens=None):
             out += [zvar(g) > 0, zvar(g) ** d[2] == toz3(d[1])]
             todo |= d[1].gens()
         elif d[0] == "fn":
-            if d[1] == "exp":
+            if d[1] in ("exp", "pow"):
                 out.append(zvar(g) > 0)
             elif d[1] == "const:pi":
                 out += [zvar(g) > 3, zvar(g) < 4]
@@ -118,7 +118,7 @@ def _positive_gens():
             if c > 0 and len(m) == 1 and m[0][1] == 1:
                 pos.add(m[0][0])
     for g, d in ring.DEFS.items():
-        if d[0] == "root" or (d[0] == "fn" and d[1] in ("exp", "const:pi")):
+        if d[0] == "root" or (d[0] == "fn" and d[1] in ("exp", "const:pi", "pow")):
             pos.add(g)
     return pos
 
